@@ -242,6 +242,74 @@ theorem one_refresh (ops : List SFOp) : (ops.foldl (sfStep false) ⟨[], []⟩).
 /-- The guard matters: releasing the key when the refresh *starts* allows two. -/
 example : ¬ ([SFOp.staleHit 1, SFOp.staleHit 1].foldl (sfStep true) ⟨[], []⟩).running.Nodup := by decide
 
+/-! ### A stale entry stays stale until a refresh brings a new answer -/
+
+/-- Regenerated from `Cache.Exec` / `doLazyUpdate`: the context copy handed to
+the background refresh is taken before the stale answer is put into the
+client's context. -/
+def copyBeforeSet : Bool := Gen.Facts.c05LazyCopyTakenBeforeCachedResp == some true
+
+theorem refresh_context_has_no_response : copyBeforeSet = true := by decide
+
+/-- What a refresh stores depends only on what the rest of the chain does to a
+context *without* a response - never on the stale answer. -/
+theorem refresh_ignores_stale (lazyTtl : Int) (st : UInt32) (it : Item) (chain : Chain) (now : Nat) :
+    refresh copyBeforeSet lazyTtl st it chain now =
+      match chain none with
+      | none => it
+      | some m => (store lazyTtl m now).getD it := by
+  rw [refresh_context_has_no_response]; rfl
+
+/-- **A refresh that yields no answer** (upstream error, no response) **leaves
+the entry exactly as it was**: stored time, message expiry, cache expiry, data. -/
+theorem failed_refresh_keeps_entry (lazyTtl : Int) (st : UInt32) (it : Item) (chain : Chain) (now : Nat)
+    (h : chain none = none) : refresh copyBeforeSet lazyTtl st it chain now = it := by
+  rw [refresh_ignores_stale, h]
+
+/-- ... and so does one whose answer must never be stored (TC, other rcodes, zero TTL). -/
+theorem unstorable_refresh_keeps_entry (lazyTtl : Int) (st : UInt32) (it : Item) (chain : Chain) (now : Nat) (m : Msg)
+    (h : chain none = some m) (ha : admission lazyTtl m = none) : refresh copyBeforeSet lazyTtl st it chain now = it := by
+  rw [refresh_ignores_stale, h]
+  simp [store, ha]
+
+/-- **The refresh reaches an upstream that sits behind a "skip when a response
+is present" guard** and stores its answer. -/
+theorem guarded_refresh_updates (lazyTtl : Int) (st : UInt32) (it it' : Item) (m : Msg) (now : Nat)
+    (h : store lazyTtl m now = some it') : refresh copyBeforeSet lazyTtl st it (guarded m) now = it' := by
+  rw [refresh_ignores_stale]
+  simp [guarded, h]
+
+/-- **Stale stays stale.** Whatever number of queries hit a stale entry, at
+whatever times, while every refresh comes back empty-handed: each of them gets
+the stale answer with the stale TTL (5) as a lazy hit - which starts a refresh
+again - or, once the entry's cache lifetime is over, a miss. None is a fresh hit. -/
+theorem stale_until_refreshed (lazyTtl : Int) (st : UInt32) (chain : Chain) (h : chain none = none)
+    (it : Item) (ts : List Nat) (hs : ∀ t ∈ ts, it.msgExp ≤ t) :
+    ∀ s ∈ lazyRun copyBeforeSet lazyTtl st chain it ts, s = .miss ∨ s = .stale (it.msg.mapRR (setRR st)) := by
+  induction ts with
+  | nil => intro s hs'; simp [lazyRun] at hs'
+  | cons t ts ih =>
+    have ht : it.msgExp ≤ t := hs t List.mem_cons_self
+    have hrest : ∀ t' ∈ ts, it.msgExp ≤ t' := fun t' h' => hs t' (List.mem_cons_of_mem _ h')
+    intro s hs'
+    unfold lazyRun at hs'
+    by_cases hg : it.cacheExp < t
+    · rw [gone_is_gone true st it t t hg] at hs'
+      simp at hs'
+      exact Or.inl hs'
+    · rw [lazy_stale st it t t hg ht] at hs'
+      simp only [failed_refresh_keeps_entry lazyTtl st it chain t h] at hs'
+      rcases List.mem_cons.mp hs' with e | hm
+      · exact Or.inr e
+      · exact ih hrest s hm
+
+/-- ... and it is gone for good once its cache lifetime is over: no failed refresh extends it. -/
+theorem stale_entry_leaves_on_time (lazyTtl : Int) (st : UInt32) (chain : Chain) (h : chain none = none)
+    (it : Item) (now t1 t2 : Nat) (hg : it.cacheExp < t1) :
+    serve true st (refresh copyBeforeSet lazyTtl st it chain now) t1 t2 = .miss := by
+  rw [failed_refresh_keeps_entry lazyTtl st it chain now h]
+  exact gone_is_gone true st it t1 t2 hg
+
 /-! ### Guards over the regenerated facts -/
 theorem facts_guard :
     Gen.Facts.c05NxdomainTtl = some 30 ∧ Gen.Facts.c05ServfailTtl = some 5 ∧
@@ -250,7 +318,8 @@ theorem facts_guard :
     Gen.Facts.c05TcNotStored = some true ∧ Gen.Facts.c05FreshTest = some true ∧
     Gen.Facts.c05CacheGetHidesExpired = some true ∧ Gen.Facts.c05SubtractCmp = Base.Cmp.gt ∧
     Gen.Facts.c05TtlHelpersSkipOpt = some true ∧ Gen.Facts.c05ForgetDeferred = some true ∧
-    Gen.Facts.c05EmptyAnswerPinsCacheTtl = some true ∧ Gen.Facts.c05TtlHelpersVisitEveryRecordOnce = some true := by decide
+    Gen.Facts.c05EmptyAnswerPinsCacheTtl = some true ∧ Gen.Facts.c05TtlHelpersVisitEveryRecordOnce = some true ∧
+    Gen.Facts.c05LazyCopyTakenBeforeCachedResp = some true ∧ Gen.Facts.c05RefreshStoresContextResp = some true := by decide
 
 /-! ### Non-vacuity -/
 def a300 : RR := ⟨false, 300⟩
@@ -266,5 +335,20 @@ example : (store 0 ok 1000).map (fun it => serve false 5 it (1000 + 10 * sec) (1
 example : (store 0 ok 1000).map (fun it => serve false 5 it (1000 + 60 * sec) (1000 + 60 * sec)) = some .miss := by decide
 example : (store 86400 ok 1000).map (fun it => serve true 5 it (1000 + 60 * sec) (1000 + 60 * sec)) =
     some (.stale ⟨0, false, [⟨false, 5⟩, ⟨false, 5⟩], [], []⟩) := by decide
+
+/-- a stale entry (stored 100 s ago, TTL 60, kept for a day), asked at `T`, `T + 1.5 s`, `T + 2.5 s` -/
+def T : Nat := 1000 * sec
+def old : Item := ⟨⟨0, false, [a60], [], []⟩, T - 100 * sec, T - 40 * sec, T + 86300 * sec⟩
+def fresh300 : Msg := ⟨0, false, [a300], [], []⟩
+example : lazyRun true 86400 5 id old [T, T + 3 * sec / 2, T + 5 * sec / 2] =
+    [.stale ⟨0, false, [⟨false, 5⟩], [], []⟩, .stale ⟨0, false, [⟨false, 5⟩], [], []⟩, .stale ⟨0, false, [⟨false, 5⟩], [], []⟩] := by decide
+example : lazyRun true 86400 5 (guarded fresh300) old [T, T + 3 * sec / 2] =
+    [.stale ⟨0, false, [⟨false, 5⟩], [], []⟩, .fresh ⟨0, false, [⟨false, 299⟩], [], []⟩] := by decide
+/-- The guard matters: were the copy taken after the stale answer is in the context, a failed refresh would
+store the stale answer as new (served as a fresh hit with TTL 4, no refresh), and a guarded upstream would never be asked. -/
+example : lazyRun false 86400 5 id old [T, T + 3 * sec / 2] =
+    [.stale ⟨0, false, [⟨false, 5⟩], [], []⟩, .fresh ⟨0, false, [⟨false, 4⟩], [], []⟩] := by decide
+example : lazyRun false 86400 5 (guarded fresh300) old [T, T + 3 * sec / 2] =
+    [.stale ⟨0, false, [⟨false, 5⟩], [], []⟩, .fresh ⟨0, false, [⟨false, 4⟩], [], []⟩] := by decide
 
 end Props.C05
